@@ -129,10 +129,24 @@ def arr(N, vals, dtype):
     return np.array(vals, dtype=dtype).reshape(N.shape)
 
 
+def enlarge(ctx, rng, data, dt, n, nd=None, p=0.2):
+    """with probability p shift the (non-nodata) values by a base beyond float32's 24 bits such that every sum of
+    up to n+1 terms stays exact in dtype `dt` (int32 / int64 / float64)"""
+    if rng.random() >= p or dt == np.float32:
+        return data
+    lim = 2 ** 31 - 64 if dt == np.int32 else 2 ** 52
+    hi = lim // (n + 2) - 64
+    if hi <= 2 ** 24:
+        return data
+    base = rng.randint(2 ** 24, hi)
+    ctx.count("field:large-magnitude")
+    return [v if (nd is not None and v == nd) else base + v for v in data]
+
+
 # ---------------------------------------------------------------------------------------------
 def case_downstream(ctx, rng, N):
     dt = rng.choice([np.int32, np.float64])
-    data = [rng.randint(-5, 20) for _ in range(N.n)]
+    data = enlarge(ctx, rng, [rng.randint(-5, 20) for _ in range(N.n)], dt, 0)
     out = N.flw.downstream(arr(N, data, dt))
     impl = exact_ints(out)
 
@@ -154,7 +168,7 @@ def case_upstream_sum(ctx, rng, N):
     nd = rng.choice([-9999, -1, 0])
     p_nd = rng.choice([0.0, 0.15, 0.3, 0.5])
     dt = rng.choice([np.int32, np.float64])
-    data = gen_field(rng, N.n, nd, p_nd)
+    data = enlarge(ctx, rng, gen_field(rng, N.n, nd, p_nd), dt, N.n, nd)
     out = N.flw.upstream_sum(arr(N, data, dt), mv=nd)
     impl = exact_ints(out)
 
@@ -190,7 +204,7 @@ def case_fill(ctx, rng, N):
     how = rng.choice(["min", "max", "sum"])
     # small values of both signs around nodata in {-1, 0}: partial sums / minima regularly coincide
     # with the nodata value (they are values all the same - fix 49571fc)
-    data = gen_field(rng, N.n, nd, p_nd, lo=-4, hi=rng.choice([4, 12]))
+    data = enlarge(ctx, rng, gen_field(rng, N.n, nd, p_nd, lo=-4, hi=rng.choice([4, 12])), dt, N.n, nd, p=0.12)
     if direction == "up":
         out = N.flw.fillnodata(arr(N, data, dt), nd, direction=rng.choice(["up", "UP"]))
         req = [("c14_fill_up", {"ds": N.ds, "seq": N.seq, "data": data, "nodata": nd})]
@@ -265,6 +279,13 @@ def case_window(ctx, rng, N):
         if usmain != ans[1]["model"]:
             fs.append({"kind": "model", "what": "idxs_us_main != Lean model of main_upstream on brute-force upstream counts",
                        "impl": usmain, "model": ans[1]["model"]})
+        if ans[1]["ok"] != [1]:
+            # proved impossible (C14.main_upstream_ok): the driver would not be the proved build
+            fs.append({"kind": "model", "what": "Lean model of main_upstream returned an ill-formed main-stem array"})
+        if ans[0]["nodup"] != [1]:
+            # conclusion of C14.window_nodup on the windows the implementation returned (= the model's)
+            fs.append({"kind": "spec" if impl == ans[0]["model"] else "model",
+                       "what": f"_window(n={n}): a window repeats a cell or holds an out-of-range index"})
         return fs
     ctx.add({"op": "_window", **N.base, "n": n, "strord": strord},
             [("c14_window", {"ds": N.ds, "usmain": usmain, "strord": strord, "n": n}),
@@ -522,6 +543,18 @@ def case_smooth_rivlen(ctx, rng, N):
             fs.append({"kind": "spec", "what": f"smooth_rivlen: cells outside every window changed {bad[:6]}"})
         if n <= 1 and changed:
             fs.append({"kind": "spec", "what": "smooth_rivlen: max_window < 4 must be the identity"})
+        # hypotheses of smooth_rivlen_total_checked, supplied by the implementation (order, main stem)
+        if a["topo"] != [1]:
+            fs.append({"kind": "spec", "what": "cell order of the network is not downstream-first (C03 hypothesis)"})
+        if a["cover"] != [1]:
+            fs.append({"kind": "spec", "what": "cell order does not hold every cell of the network / field size != network size "
+                       "(hypotheses of smooth_rivlen_total_topo)"})
+        if usmain != ans[1]["model"]:
+            fs.append({"kind": "model", "what": "idxs_us_main != Lean model of main_upstream on brute-force upstream counts",
+                       "impl": usmain, "model": ans[1]["model"]})
+        if a["topo"] == [1] and a["cover"] == [1] and a["usmain_ok"] == [1] and a["nodup"] != [1]:
+            # proved impossible (C14.window_nodup_checked): the driver would not be the proved build
+            fs.append({"kind": "model", "what": "duplicate / out-of-range window although topo, cover and usmain_ok hold"})
         if a["nodup"] != [1]:
             fs.append({"kind": "spec", "what": "smooth_rivlen: a window has duplicate or out-of-range cells (hypothesis of smooth_rivlen_total)"})
         else:
@@ -533,8 +566,9 @@ def case_smooth_rivlen(ctx, rng, N):
             fs.append({"kind": "spec", "what": "idxs_us_main: entry is not an inflow cell"})
         return fs
     ctx.add({"op": "smooth_rivlen", **N.base, "rivlen": riv, "min_rivlen": min_len, "max_window": mw, "nodata": nd},
-            [("c14_smooth_rivlen", {"ds": N.ds, "usmain": usmain, "rivlen": riv, "min_rivlen": min_len,
-                                    "max_window": mw, "nodata": nd})], judge,
+            [("c14_smooth_rivlen", {"ds": N.ds, "usmain": usmain, "seq": N.seq, "rivlen": riv, "min_rivlen": min_len,
+                                    "max_window": mw, "nodata": nd}),
+             ("c14_main_upstream", {"ds": N.ds, "uparea": upa, "upa_min": 0})], judge,
             nontrivial=N.nontriv and changed > 0)
 
 
